@@ -367,6 +367,9 @@ pub fn plant_long_fen(t: &mut Tape) -> Option<Pos> {
 /// pinning), screened from it by single men of either colour. Construction instead of rejection:
 /// a slider that would attack the king of the side not to move gets a blocker or is taken off.
 pub fn plant_many_sliders(t: &mut Tape) -> Option<Pos> {
+    if t.chance(1, 4) {
+        return plant_many_of_a_kind(t);
+    }
     let mut p = Pos::empty();
     let a = if t.chance(1, 2) { Col::W } else { Col::B }; // owner of the sliders
     let b = a.other();
@@ -442,6 +445,61 @@ pub fn plant_many_sliders(t: &mut Tape) -> Option<Pos> {
         let m = p.stm;
         clear_attackers(&mut p, m);
     }
+    p.validate().ok()?;
+    Some(p)
+}
+
+/// Positions after many under-promotions: one side owns nine or ten knights, bishops, rooks or
+/// queens (ten of a kind is the most a game can produce: two originals and eight promotions; nine
+/// queens likewise), often with a pawn on the seventh that can make the next one. None of them
+/// attacks the enemy king.
+pub fn plant_many_of_a_kind(t: &mut Tape) -> Option<Pos> {
+    let mut p = Pos::empty();
+    let a = if t.chance(1, 2) { Col::W } else { Col::B };
+    let b = a.other();
+    let bk = t.below(64) as Sq;
+    let cands: Vec<Sq> = (0..64u8).filter(|&s| s != bk && !adjacent(s, bk)).collect();
+    let ak = cands[t.below(cands.len())];
+    p.board[ak as usize] = Some((a, Kind::K));
+    p.board[bk as usize] = Some((b, Kind::K));
+    let kind = [Kind::N, Kind::B, Kind::R, Kind::Q, Kind::N, Kind::B][t.below(6)];
+    let most = if kind == Kind::Q { 9 } else { 10 };
+    let n = [most - 1, most - 1, most][t.below(3)];
+    let mut placed = 0;
+    for _ in 0..60 {
+        if placed >= n {
+            break;
+        }
+        let s = t.below(64) as Sq;
+        if p.at(s).is_some() {
+            continue;
+        }
+        p.board[s as usize] = Some((a, kind));
+        if p.attackers(bk, a).contains(&s) {
+            p.board[s as usize] = None;
+            continue;
+        }
+        placed += 1;
+    }
+    // pawns of that side on their seventh rank (the next promotion) and a few men for the other side
+    let seventh: i8 = if a == Col::W { 6 } else { 1 };
+    for _ in 0..t.below(4) {
+        let f = t.below(8) as i8;
+        let s = mk(f, seventh).unwrap();
+        if p.at(s).is_none() && p.men(a) < 16 && p.count(a, Kind::P) + placed.min(8) <= 8 + 2 {
+            p.board[s as usize] = Some((a, Kind::P));
+            if p.attackers(bk, a).contains(&s) {
+                p.board[s as usize] = None;
+            }
+        }
+    }
+    for _ in 0..t.below(4) {
+        let k = [Kind::P, Kind::N, Kind::B, Kind::R][t.below(4)];
+        place(&mut p, t, b, k);
+    }
+    p.stm = if t.chance(3, 4) { a } else { b };
+    let nm = p.stm.other();
+    clear_attackers(&mut p, nm);
     p.validate().ok()?;
     Some(p)
 }
